@@ -676,48 +676,63 @@ theorem erase_subscription {S : Schema} {F : Feats} (hu : (S.types.map (·.name)
     (view (erase S F) top).subscriptionType = (view S F).subscriptionType :=
   filter_filter_root hu S.subscription
 
-/-! ### directives (hypothesis `DirArgsVisible`: open findings F-10g / F-13g) -/
+/-! ### directives (after fix 05: arguments of hidden types are not shown) -/
 
-theorem dirArgs_visible {S : Schema} {F : Feats} (hD : DirArgsVisible S F = true) {d : DirectiveDef}
-    (hd : d ∈ S.directives) : ∀ a ∈ d.args, S.visible F a.ty.base = true := by
-  simp only [DirArgsVisible, List.all_eq_true] at hD
-  exact hD d hd
-
-theorem erase_directives {S : Schema} {F : Feats} (hD : DirArgsVisible S F = true) :
-    (erase S F).directives = S.directives := by
-  show S.directives.map (fun d => { d with args := d.args.filter (fun a => S.visible F a.ty.base) }) = S.directives
-  have : ∀ d ∈ S.directives,
-      ({ d with args := d.args.filter (fun a => S.visible F a.ty.base) } : DirectiveDef) = d := by
-    intro d hd
-    have : d.args.filter (fun a => S.visible F a.ty.base) = d.args :=
-      List.filter_eq_self.mpr (dirArgs_visible hD hd)
-    rw [this]
-  rw [List.map_congr_left this, List.map_id']
-
-theorem directivesListing_erase {S : Schema} {F : Feats} (hD : DirArgsVisible S F = true) :
-    directivesListing (erase S F) = directivesListing S := erase_directives hD
-
-theorem directiveArgs_erase {S : Schema} {F : Feats} (hD : DirArgsVisible S F = true) (dn : String) :
-    directiveArgs (erase S F) dn = directiveArgs S dn := by
-  unfold directiveArgs; rw [erase_directives hD]
-
-/-- No directive argument type carries features ⇒ they are visible to every request. -/
-theorem dirArgsVisible_of_ungated {S : Schema} (hA : Accepted S = true) (hU : DirArgsUngated S = true) (F : Feats) :
-    DirArgsVisible S F = true := by
-  simp only [DirArgsVisible, DirArgsUngated, List.all_eq_true, beq_iff_eq] at hU ⊢
-  intro d hd a ha
+/-- For a directive argument of an accepted schema, "shown" (`VisibleArguments`) is "its type is visible". -/
+theorem shown_eq_visible {S : Schema} {F : Feats} (hA : Accepted S = true) {d : DirectiveDef}
+    (hd : d ∈ S.directives) {a : Arg} (ha : a ∈ d.args) : dirArgShown S F a = S.visible F a.ty.base := by
   have hin := ((Accepted.directiveOk hA hd).2 a ha).2
   have hk := isInputRef_isSome hin
-  have hq := hU d hd a ha
+  unfold dirArgShown Schema.reqOf Schema.visible
   unfold Schema.kindOf at hk
-  unfold Schema.reqOf at hq
-  unfold Schema.visible
   cases h : S.find? a.ty.base with
   | none => simp [h] at hk
-  | some t => simp_all [reqOk]
+  | some t => rfl
+
+theorem dirArgShown_top (S : Schema) (_a : Arg) : dirArgShown S top _a = true := by
+  simp [dirArgShown]
+
+theorem filter_shown_top (S : Schema) (l : List Arg) : l.filter (dirArgShown S top) = l :=
+  List.filter_eq_self.mpr (fun a _ => dirArgShown_top S a)
+
+theorem erasedDirective_args {S : Schema} {F : Feats} (hA : Accepted S = true) {d : DirectiveDef}
+    (hd : d ∈ S.directives) :
+    d.args.filter (fun a => S.visible F a.ty.base) = d.args.filter (dirArgShown S F) :=
+  List.filter_congr (fun _ ha => (shown_eq_visible hA hd ha).symm)
+
+theorem directivesListing_erase {S : Schema} {F : Feats} (hA : Accepted S = true) :
+    directivesListing (erase S F) top = directivesListing S F := by
+  unfold directivesListing
+  show (S.directives.map (fun d => { d with args := d.args.filter (fun a => S.visible F a.ty.base) })).map
+      (fun d => { d with args := d.args.filter (dirArgShown (erase S F) top) }) = _
+  rw [List.map_map]
+  apply List.map_congr_left
+  intro d hd
+  simp only [Function.comp, filter_shown_top, erasedDirective_args hA hd]
+
+theorem directiveArgs_erase {S : Schema} {F : Feats} (hA : Accepted S = true) (dn : String) :
+    directiveArgs (erase S F) top dn = directiveArgs S F dn := by
+  unfold directiveArgs
+  show ((S.directives.map (fun d => { d with args := d.args.filter (fun a => S.visible F a.ty.base) })).find?
+      (fun d => d.name == dn)).map (fun d => d.args.filter (dirArgShown (erase S F) top)) = _
+  rw [List.find?_map]
+  simp only [Function.comp_def, Option.map_map, filter_shown_top]
+  cases hf : S.directives.find? (fun d => d.name == dn) with
+  | none => rfl
+  | some d =>
+    simp only [Option.map_some, Function.comp]
+    rw [erasedDirective_args hA (List.mem_of_find?_eq_some hf)]
+
+/-- The directive listing only names visible types. -/
+theorem directivesListing_closed {S : Schema} {F : Feats} (hA : Accepted S = true) :
+    ∀ d ∈ directivesListing S F, ∀ a ∈ d.args, S.visible F a.ty.base = true := by
+  intro d' hd' a ha
+  unfold directivesListing at hd'
+  obtain ⟨d, hd, rfl⟩ := List.mem_map.mp hd'
+  have := List.mem_filter.mp ha
+  rw [← shown_eq_visible hA hd this.1]; exact this.2
 
 theorem evalHead_erase {S : Schema} {F : Feats} (hA : Accepted S = true) (hR : RootsUngated S = true)
-    (hD : DirArgsVisible S F = true)
     (tag arg : String) (k k' : Node → List (String × Json))
     (hk : ∀ n, NodeVis S F n → k n = k' n) (n : Node) (hn : NodeVis S F n) :
     evalHead (view S F) tag arg k n = evalHead (view (erase S F) top) tag arg k' n := by
@@ -733,11 +748,11 @@ theorem evalHead_erase {S : Schema} {F : Feats} (hA : Accepted S = true) (hR : R
     have hmE := erase_mutation (S := S) (F := F) hu
     have hsE := erase_subscription (S := S) (F := F) hu
     simp only [view] at hmE hsE
-    simp only [evalHead, view, typesListing_erase, hmE, hsE, directivesListing_erase hD]
-    have hdl : (directivesListing S).map (fun d => Json.obj (k (.directive d))) =
-        (directivesListing S).map (fun d => Json.obj (k' (.directive d))) :=
+    simp only [evalHead, view, typesListing_erase, hmE, hsE, directivesListing_erase hA]
+    have hdl : (directivesListing S F).map (fun d => Json.obj (k (.directive d))) =
+        (directivesListing S F).map (fun d => Json.obj (k' (.directive d))) :=
       List.map_congr_left (fun d hd => by
-        rw [hk _ (show NodeVis S F (.directive d) from dirArgs_visible hD hd)])
+        rw [hk _ (show NodeVis S F (.directive d) from directivesListing_closed hA d hd)])
     rw [hdl]
     have h1 : (typesListing S F).map (fun p => Json.obj (k (.ty (.named p)))) =
         (typesListing S F).map (fun p => Json.obj (k' (.ty (.named p)))) :=
@@ -800,13 +815,13 @@ theorem evalHead_erase {S : Schema} {F : Feats} (hA : Accepted S = true) (hR : R
     rw [this]
 
 theorem evalSels_erase {S : Schema} {F : Feats} (hA : Accepted S = true) (hR : RootsUngated S = true)
-    (hD : DirArgsVisible S F = true) (sels : Sels) : ∀ n, NodeVis S F n → evalSels (view S F) sels n = evalSels (view (erase S F) top) sels n := by
+    (sels : Sels) : ∀ n, NodeVis S F n → evalSels (view S F) sels n = evalSels (view (erase S F) top) sels n := by
   induction sels with
   | nil => intro n _; rfl
   | cons tag arg sub rest ihs ihr =>
     intro n hn
     simp only [evalSels]
-    rw [evalHead_erase hA hR hD tag arg _ _ ihs n hn, ihr n hn]
+    rw [evalHead_erase hA hR tag arg _ _ ihs n hn, ihr n hn]
 
 /-! ### clients: validation walk, execution walk -/
 
